@@ -1,4 +1,5 @@
 """C38 — update metadata parsing is total and decodes JSON strings correctly."""
+import re
 from sa.paths import Cfg, must_hold_at, gate_check
 from sa.flow import origin_chain, field_accesses
 from sa.match import comparison, const_value, holds
@@ -529,3 +530,32 @@ def run(ck):
         fresh38 = bool(arg_d) and bool(lp_in) and all(any(pm.nodes[v]['k'] == 'VarDecl' and pm.nodes[v].get('d') == d_ and pm.is_in(v, pm.nodes[lp_in[-1]]['body']) for v in pm.walk()) for d_ in arg_d)
         ck.ob('C38.field', 'C38.field/download-record-fresh-per-entry', fresh38, pm.loc(i),
               'the DownloadInfo appended for a platform is a local of the loop body, so every field not present in that entry has its default (nothing carries over from the previous platform)')
+
+    # ---- single-character escapes decode per RFC 8259: parse_string switches over the escape code with the standard table -----------------------------
+    from props.common import switch_table as _st38, literal_text as _lt38
+    ps38 = methods[JP + 'parse_string']
+    sws38 = [i for i in ps38.walk() if ps38.nodes[i]['k'] == 'SwitchStmt']
+    WANT38 = {ord('"'): '"', ord('\\'): '\\', ord('/'): '/', ord('b'): '\b', ord('f'): '\f', ord('n'): '\n', ord('r'): '\r', ord('t'): '\t'}
+    got38 = {}
+    if len(sws38) == 1:
+        for k_, stmts in _st38(ps38, sws38[0]).items():
+            if k_ == 'default':
+                continue
+            pushed = []
+            for st_ in stmts:
+                for j in ps38.walk(st_):
+                    if (ps38.nodes[j].get('callee') or '').endswith('::push_back'):
+                        a_ = ps38.call_args(j)[0]
+                        lit = _lt38(ps38, a_)
+                        pushed.append(lit if lit is not None else ('<esc>' if any(ps38.nodes[x]['k'] == 'DeclRefExpr' for x in ps38.walk(a_)) else '?'))
+            got38[k_] = pushed
+    ok38 = len(sws38) == 1 and all((got38.get(k_) == [v_]) or (got38.get(k_) == ['<esc>'] and v_ == chr(k_)) for k_, v_ in WANT38.items())
+    ck.ob('C38.field', 'C38.field/simple-escapes-table', ok38, ps38.loc(sws38[0]) if sws38 else ps38.loc(),
+          'parse_string decodes \\\\" \\\\\\\\ \\\\/ \\\\b \\\\f \\\\n \\\\r \\\\t through one switch over the escape code whose cases push exactly the RFC 8259 characters')
+
+    # ---- the parser copies text only through std::string / string_view operations: no raw memory copy into fixed buffers -------------------------------
+    raw38 = [(f, i) for f in methods.values() for i in f.walk() if (f.nodes[i].get('callee') or '').lstrip(':').replace('std::', '') in
+             ('memcpy', 'memmove', 'strcpy', 'strncpy', 'strcat', 'sprintf', 'snprintf', 'sscanf', 'gets')]
+    cbuf38 = [(f, i) for f in methods.values() for i in f.walk() if f.nodes[i]['k'] == 'VarDecl' and re.match(r'(const )?(unsigned |signed )?char \[\d+\]', f.nodes[i].get('t') or '')]
+    ck.ob('C38.mem', 'C38.mem/no-raw-buffers', not raw38 and not cbuf38, (raw38 or cbuf38)[0][0].loc((raw38 or cbuf38)[0][1]) if (raw38 or cbuf38) else pm.loc(),
+          'JsonParser keeps text in std::string / string_view only: no fixed-size char array and no memcpy-family call (a literal longer than the array overflows the stack)')
